@@ -57,8 +57,23 @@ func inUniverse(o, r, u string) bool {
 	return false
 }
 
+// condValid: does the command layer accept this condition on a universe key (a directly written
+// tuple may carry one it would not, and the generator copies conditions of existing tuples)
+func condValid(c condv) bool {
+	if !c.has {
+		return true
+	}
+	switch c.name {
+	case "c1":
+		return c.ctx == CtxNil || c.ctx == CtxEmpty || c.ctx == CtxX1 || c.ctx == CtxX2
+	case "c2":
+		return c.ctx == CtxNil || c.ctx == CtxEmpty || c.ctx == CtxX1 || c.ctx == CtxX2 || c.ctx == CtxSA
+	}
+	return false
+}
+
 func keyItem(k Key, c condv) Item {
-	return Item{Obj: k.Obj, Rel: k.Rel, User: k.User, Has: c.has, Name: c.name, Ctx: c.ctx, Valid: true}
+	return Item{Obj: k.Obj, Rel: k.Rel, User: k.User, Has: c.has, Name: c.name, Ctx: c.ctx, Valid: condValid(c)}
 }
 
 // Profile steers one history.
